@@ -56,6 +56,18 @@ CHECKS = {
         note="Trusts the 40-line Fraction model in checks/c07.py and a 1e-9 relative tolerance; 0/0 pairs accept NaN or 0.",
         ref="2 C07",
     ),
+    "C15": dict(
+        technique="property-based testing: Hypothesis code bases with alias decorations (file/dir symlinks, ./ and d/../d segments); metamorphic comparison with the canonical twin",
+        text="Generated-input search over code bases in which compile commands, -I options and include directives reach files through symlinks and redundant path segments, and observer headers (#pragma once + seen-before macro) are included through two spellings. Per-line attribution keyed by real file, get_setmap and membership must equal those of the canonical twin (aliases replaced, links removed); links to outside are not members; cbi-tree link rows and cbi-cov entries are checked on a CLI subset. Bounded exploration.",
+        note="The canonical twin (same tool, canonical paths) is the oracle, as the statement says; compilers are not consulted.",
+        ref="2 C15",
+    ),
+    "C16": dict(
+        technique="property-based testing: Hypothesis code bases with contents from a small byte-string pool; oracle = direct byte-wise partition",
+        text="Generated-input search over code bases whose files draw their contents from 9 byte strings (empty, last-byte and length near-duplicates, non-UTF-8), with excluded, outside-root, non-source and symlinked twins. The groups of size >= 2 of a direct byte-wise partition of the non-symlink members must equal report.find_duplicates and the Duplicates section of the codebasin CLI exactly (set of sets). Bounded exploration.",
+        note="Membership is taken from CodeBase itself.",
+        ref="2 C16",
+    ),
     "C18": dict(
         technique="property-based testing: Hypothesis trees with known dangling includes / unknown directives / bad database entries; oracle = event multiset of the reference preprocessor model vs captured log records and CLI totals",
         text="Generated-input search over code bases with a known set of unhonourable inputs. The reference model computes the expected multiset of warning events (per evaluation of a dangling include with file, line, name, form; reached unknown directives; missing-file entries; unknown compilers; unknown flags) which is compared with the WARNING records captured from config.load_database + finder.find; nothing else may be warned. A CLI layer compares the closing totals of `codebasin` with the warnings in cbi.log. Bounded exploration.",
